@@ -397,4 +397,22 @@ def run(F, R, tier):
                     n_ref += 1
         r7.site("%s: %d embedded-hit, %d reference-hit and %d fallback path(s) checked" % (fname, n_emb, n_ref, n_gp))
         r7.require((n_emb >= 5 and n_ref >= 5 and n_gp >= 1) or not tab.paths, (fn, "coverage"), "resolution does not cover the five relationship sets (embedded %d, reference %d, fallback %d)" % (n_emb, n_ref, n_gp))
-    r7.floor(2)
+    # every conversion into a DIDUrlQuery keeps the whole value (a query built from a DIDUrl that lost its DID would match any
+    # entry with the same fragment, whatever its DID)
+    WHOLE = re.compile(r"(to_string|to_owned|as_str|as_ref|deref|borrow|into|from|clone|Borrowed|Owned)$")
+    convs = F.find(r"^<identity_document::utils::did_url_query::DIDUrlQuery as core::convert::From<.*>>::from$")
+    okc = len(convs) >= 4
+    for cf in convs:
+        tabc = SR.Table(F, cf, opaque=r"to_string$|ToString::to_string$", rule=r7)
+        pn = (F.hir(cf)["params"][0].get("name") if F.hir(cf) and F.hir(cf)["params"] else None) or "other"
+        for q in tabc.paths:
+            v = q.ret
+            inner = v.f.get("0") if isinstance(v, SY.St) else (v.fields[0] if isinstance(v, SY.V) and v.fields else v)
+            if isinstance(inner, SY.V) and inner.fields:
+                inner = inner.fields[0]
+            good = inner is not None and SR.pure(inner, SR.param(pn), conv=WHOLE)
+            if not r7.require(good, (cf, "whole-value"), "%s builds the query from %s, not from the whole value it was given" % (L.short(cf), SY.fmt(SY.term(inner)) if inner is not None else "?")):
+                okc = False
+    r7.site("DIDUrlQuery: %d From conversions, each wrapping the whole value: %s" % (len(convs), okc))
+    r7.require(len(convs) >= 4, ("DIDUrlQuery", "conversions"), "expected the From<&str|&String|DIDUrl|&DIDUrl|&RelativeDIDUrl> conversions of DIDUrlQuery")
+    r7.floor(3)
